@@ -23,7 +23,7 @@ HOWS = ["deepcopy", "p2", "p3", "p4", "p5", "fresh"]
 
 def generate(rnd, tier, index=0):
     regime = rnd.choice(["exact", "float"])
-    cfg, spare = gen.gen_cfg(rnd, with_np=rnd.random() < 0.7, binarizer=rnd.random() < 0.5, allow_probs=False)
+    cfg, spare = gen.gen_cfg(rnd, with_np=rnd.random() < 0.7, binarizer=rnd.random() < 0.5, allow_probs=False, scale=True)
     cfg["n_jobs"] = rnd.choice([1, 1, 2, 3])
     d = rnd.randint(1, 3)
     ops = gen.gen_history(rnd, cfg, spare, d, regime, rnd.randint(4, 14), warm=True, max_rows=12, binarizers=True)
